@@ -3,6 +3,7 @@
 package corerad
 
 import (
+	"fmt"
 	"context"
 	"errors"
 	"math/rand"
@@ -18,6 +19,7 @@ import (
 // runShutdown stops a running advertiser at instant tc while transmissions are pending or in
 // flight (scripted latencies), and records the ordered event log of the connection.
 func runShutdown(t *testing.T, out *vfh.Out, terminate bool, evs []advEvent, tc time.Duration, lat []time.Duration, failIdx int, atStop int) {
+	out.Pending(fmt.Sprintf("runShutdown terminate=%v stop=%v events=%+v latencies=%v failIdx=%d atStop=%d", terminate, tc, evs, lat, failIdx, atStop))
 	synctest.Test(t, func(t *testing.T) {
 		min, max := 200*time.Second, 600*time.Second
 		v := newVfAdv(vfAdvConfig(min, max, false, 1800*time.Second), terminate, nil)
